@@ -53,6 +53,8 @@ var Prop = &engine.Prop{
 		{Name: "stress", Quick: 24, Thorough: 1800, Repeat: 20, Fn: stressCase},
 		{Name: "backlog", Quick: 64, Thorough: 2400, Fn: backlogCase},
 		{Name: "ctx-reuse", Quick: 400, Thorough: 16000, Fn: ctxReuseCase},
+		{Name: "late-run", Quick: 600, Thorough: 30000, Fn: lateRunCase},
+		{Name: "double-stop", Quick: 8, Thorough: 160, Fn: doubleStopCase},
 	},
 	Floors: map[string]int64{
 		"queued_behind_running":   500,
